@@ -202,6 +202,34 @@ def check_config(ctx, f, tag):
                    "after a chunk the only way to return without re-testing `pos < len` is the error path", c.where)
 
 
+def no_cancel(ctx, f, tag):
+    """W-NOCANCEL (added after seeded change C18b): the guard keeps other senders out only while the send future
+    lives. Dropping that future between two chunks (a timeout / race wrapped around it) releases the guard with a
+    message half written, and the next sender's bytes follow the torn prefix. So inside zbus the future of
+    Connection::send (and of the functions that just forward to it) is awaited directly, never handed to
+    `timeout` / `or` / `race` / `select`."""
+    SEND = "zbus::connection::Connection::send"
+    n = 0
+    for b in f.all_bodies("zbus"):
+        for c in mir.calls(b):
+            if c.callee != SEND:
+                continue
+            n += 1
+            der = mir.derives(b, {c.dest[0]}, through_calls=False)
+            bad = None
+            for x in mir.calls(b):
+                if x is c:
+                    continue
+                nm = x.callee.rsplit("::", 1)[-1]
+                if nm in ("timeout", "or", "race", "select", "select_biased", "timeout_at", "try_zip", "zip") and \
+                        any(l in der for a in x.args for l in mir.operand_locals(a)):
+                    bad = x
+            ctx.ob("W-NOCANCEL", tag + "send-future-awaited-directly:" + b.root, bad is None,
+                   "the future of Connection::send is awaited in place" if bad is None else
+                   "the future of Connection::send is handed to %s: it can be dropped between two chunks of one message" % bad.callee, c.where)
+    ctx.floor("W-NOCANCEL", tag + "internal callers of Connection::send", n, 3)
+
+
 def run(ctx):
     ctx.explanation = ("R-AWAIT on rustc's coroutine layout: the socket_write MutexGuard is saved across the only await of "
                        "send_message in Connection::send and is its receiver; R-WHO: the call sites of WriteHalf::send_message/"
@@ -210,6 +238,7 @@ def run(ctx):
     ctx.not_decided = "behaviour of the transport's sendmsg; fairness/order of the async mutex (third-party async-lock)."
     f = ctx.facts("K1")
     check_config(ctx, f, "")
+    no_cancel(ctx, f, "")
     if ctx.tier == "thorough":
         f3 = ctx.facts("K3")
         check_config(ctx, f3, "K3:")
